@@ -142,6 +142,12 @@ def build_model(spec, dtype=torch.float32):
     for i, L in enumerate(spec['layers']):
         if L.get('dtype') and L['t'] != 'cast':      # this layer alone lives in another dtype (a 'cast' layer precedes it)
             mods[i].to(DTYPES[L['dtype']])
+    if spec.get('weight_t'):
+        # Linear weights stored transposed (column-major: same values, dense, non-contiguous), as after importing a checkpoint with
+        # `weight.data = kernel.t()`; autograd then produces weight gradients with the same strides
+        for m in model.modules():
+            if isinstance(m, nn.Linear) and m.weight.shape[0] > 1 and m.weight.shape[1] > 1:
+                m.weight.data = m.weight.data.t().contiguous().t()
     for i, L in enumerate(spec['layers']):
         if L.get('tie_to') is not None:            # weight tying: this layer uses the very Parameter of an earlier layer of the same shape
             mods[i].weight = mods[L['tie_to']].weight
